@@ -147,6 +147,8 @@ mut("parse-layer-vmin-vmax", "plot/parser.py", "    if out.vmax is None:\n      
 mut("map-vmin-forward", "plot/map.py", "            vmin=vmin,\n            vmax=vmax,\n            **kwargs,\n        )\n        layer.kwargs.update(", "            vmin=vmax,\n            vmax=vmin,\n            **kwargs,\n        )\n        layer.kwargs.update(", ["C19"])
 mut("render-pops-caller", "plot/histogram2d.py", "                \"params\": layer.kwargs,", "                \"params\": kwargs,", ["C19"])
 mut("direction-y-axes", "plot/direction.py", 'VectorBasis(n=dir_list["y"], u=dir_list["z"], v=dir_list["x"])', 'VectorBasis(n=dir_list["y"], u=dir_list["x"], v=dir_list["z"])', ["C18"])
+mut("direction-any-length-axis-word", "plot/direction.py", 'if len(direction) == 3 and set(direction) == set("xyz"):', 'if set(direction) == set("xyz"):', ["C18"])   # fix F15 reverted
+mut("direction-repeated-letters", "plot/direction.py", 'if len(direction) == 3 and set(direction) == set("xyz"):', 'if len(direction) == 3 and set(direction) <= set("xyz"):', ["C18"])
 mut("direction-top-vel-cross-pos", "plot/direction.py", "ang_mom = np.sum(weighted_pos.cross(vel))", "ang_mom = np.sum(vel.cross(weighted_pos))", ["C18"])
 mut("sphere-inclusive", "spatial/subdomain.py", "c = (r < radius).values", "c = (r <= radius).values", ["C16"])
 mut("box-axis-mismatch", "spatial/subdomain.py", "(centered_pos.y <= dy * 0.5) & (centered_pos.y >= -dy * 0.5)", "(centered_pos.y <= dx * 0.5) & (centered_pos.y >= -dy * 0.5)", ["C16"])
